@@ -9,6 +9,7 @@ import numpy as np
 
 from .. import coqfmt as F
 from .. import pyobs
+from .. import graphgen as G
 from .. import sergen as S
 from .. import values as V
 from .common import Outcome, quiet, try_build
@@ -78,6 +79,14 @@ def gen(rng, tier):
             r["edges"] = list(r["edges"]) + [(k, k), (rng.choice(list(r["nodes"])), k)]
             seq.insert(rng.randrange(len(seq) + 1), "check")
         cases.append({"kind": "observe", "recipe": V.enc_recipe(r), "how": how, "seq": seq, "stale": stale})
+    # graphs whose shape annotations are still (partly) undefined — un-inferred convolutions, Flatten and Output nodes behind
+    # a typed Input: the file form cannot carry them (write raises), the type check rejects them; neither may "help" by
+    # filling the annotations in
+    for _ in range(N // 4):
+        cg = G.consistent_graph(rng, max_nodes=rng.choice([3, 6]))
+        r, done = G.erase(rng, cg)
+        seq = [rng.choice(OBS + ["write", "check"]) for _ in range(rng.randint(1, 5))]
+        cases.append({"kind": "observe", "recipe": V.enc_recipe(r), "how": "erased:%d" % len(done), "seq": seq, "stale": False})
     return cases
 
 
